@@ -5,7 +5,7 @@ from autobean_refactor import models
 CASES = {'quick': 4000, 'thorough': 60000}
 SMALL_BLOCKS = 4      # runner: every 4th case keeps its stores in 2..10-token blocks
 GATES = {
-    'quick': {'cases_in_small_blocks': 50, 'evaluations': 7000, 'steps_with_visible_change': 6000, 'op_kinds_seen': 60, 'crlf_documents': 300},
+    'quick': {'cases_in_small_blocks': 50, 'evaluations': 7000, 'steps_with_visible_change': 6000, 'op_kinds_seen': 60, 'crlf_documents': 300, 'kind:header-strings': 250},
     'thorough': {'evaluations': 200000, 'op_kinds_seen': 70},
 }
 RULE = ('case = one accepted generated document and a history of 1..12 (thorough ..60) *syntax-preserving* catalog operations (the '
@@ -156,6 +156,28 @@ def history(col, text, f, hseed, lf, count):
             if odd_layout and getattr(op, 'list_attr', None) in ('raw_meta_with_comments', 'raw_postings_with_comments'):
                 return (KF_ODD, f'after {op.desc}: {v[1]}', dict(v[2], note='the edited list held an unindented comment before the edit')), log
             return (f'{v[0]}:{op.kind}', f'after {op.desc}: {v[1]}', v[2]), log
+    # the two header strings of a transaction, a short assignment sequence: payee and narration share adjacent optional slots, and
+    # what a lone string means is decided by the parser (narration) - the model has to keep saying what the text says
+    txns = [(p, m) for p, m in walker.walk(f) if isinstance(m, models.Transaction)]
+    if txns and r.random() < 0.35:
+        p, m = r.choice(txns)
+        for _ in range(r.randint(2, 4)):
+            a = r.choice(['payee', 'narration'])
+            val = r.choice([None, None, '', '', 'x', 'q "y"'])
+            try:
+                setattr(m, a, val)
+            except Exception as e:
+                if count:
+                    col.skip(f'header string step raised {type(e).__name__}; history ends')
+                return None, log
+            log.append(f'{p}.{a} = {val!r}')
+            if count:
+                col.count('kind:header-strings')
+                col.ev()
+                col.nontrivial(text, tuple(log))
+            v = compare(col, f, text, log, {'lf': lf})
+            if v:
+                return (f'{v[0]}:header-strings', f'after {log[-1]}: {v[1]}', v[2]), log
     return None, log
 
 
